@@ -275,7 +275,7 @@ pub fn run_child(args: &[String]) {
                     r
                 })
                 .expect("spawn scenario thread");
-            // a step of the code under test that makes no progress for 5 s is a hang (e.g. a deadlock):
+            // a step of the code under test that makes no progress for 12 s is a hang (e.g. a deadlock):
             // data, not a harness failure - report it, leave, and let the parent restart behind it
             let mut seen = 0u64;
             let mut since = Instant::now();
@@ -287,7 +287,7 @@ pub fn run_child(args: &[String]) {
                         if n != seen {
                             seen = n;
                             since = Instant::now();
-                        } else if since.elapsed() > Duration::from_secs(5) {
+                        } else if since.elapsed() > Duration::from_secs(12) {
                             if let Ok(mut f) = std::fs::OpenOptions::new().append(true).open(trace) {
                                 let _ = writeln!(
                                     f,
@@ -376,6 +376,7 @@ struct RecWriter {
     fmt: FormatFunction,
     ceil: log::LevelFilter,
     store: Store,
+    fail: bool, // every write() is recorded and then reported as failed (an additional writer with an I/O problem)
 }
 impl LogWriter for RecWriter {
     fn write(&self, now: &mut DeferredNow, record: &log::Record) -> std::io::Result<()> {
@@ -383,6 +384,9 @@ impl LogWriter for RecWriter {
         let mut v = Vec::new();
         let _ = (self.fmt)(&mut v, now, record);
         self.store.lock().unwrap().push(v);
+        if self.fail {
+            return Err(std::io::Error::other("this writer always fails (verif harness)"));
+        }
         Ok(())
     }
     fn flush(&self) -> std::io::Result<()> {
@@ -976,6 +980,7 @@ fn run_scenario(sc: &Value, env: &mut Env) -> usize {
                             fmt: fmt_by_name(&fname),
                             ceil,
                             store: store.clone(),
+                            fail: gb(w, "fail", false),
                         }),
                     );
                     outputs.push(Output {
@@ -1009,6 +1014,7 @@ fn run_scenario(sc: &Value, env: &mut Env) -> usize {
                 fmt: fmt_id,
                 ceil: log::LevelFilter::Trace,
                 store: pstore.clone(),
+                fail: false,
             })
         };
         let has_file = primary == "file" || primary == "both";
